@@ -213,6 +213,9 @@ func (e *Engine) Attest(msg []byte, vstyle int) []byte {
 	for i := 0; i < t; i++ {
 		signers = append(signers, keys[perm[i]])
 	}
+	if vstyle == 2 && e.TxCount%2 == 1 {
+		vstyle = 3 // mixed encodings in the other order
+	}
 	return ref.HonestAttestation(msg, signers, vstyle)
 }
 
